@@ -1525,6 +1525,510 @@ fn check_chain(ctx: &Ctx, stats: &Stats) {
     }
 }
 
+// ---------------------------------------------------------------- part 2e
+// The OCTET axis of the text round trip. Parts 1-2d produce name values whose
+// label contents come from a small menu (fill octets, an 11-symbol text
+// alphabet), so a writer or reader of presentation text that mishandles one
+// octet VALUE is never exercised. Here every octet value 0..=255 is put at
+// every kind of place of a label (alone, first, middle, last, next to each
+// character with a meaning of its own: dot, backslash, space, digit), in the
+// only / first / last label of a name, plus every ordered pair of octets from
+// a class-boundary menu as a two-octet label and a long name filled with the
+// octet. Each such value is held as every name type; EVERY route that writes
+// presentation text is run, and every distinct text is read back by EVERY
+// route that reads presentation text.
+//
+// Oracle (nothing of it is taken from the library's writer):
+//  (w) the text denotes exactly the value's label octets under the escape
+//      rules of RFC 1035 section 5.1 as written in `rfc1035_read` below
+//      (`\DDD` = octet of that decimal value, `\X` = X itself, `.` separates
+//      labels, anything else stands for itself), has a trailing dot where the
+//      writer is the with-dot one (or the value is an absolute UncertainName)
+//      and has none for a relative value; unescaped characters outside
+//      0x21..=0x7E are reported (no reader has to take them);
+//  (r) round-trip identity: every reader returns the octets the text was
+//      written from (plus root / origin as that reader documents), and a
+//      relative reader refuses a text with a trailing dot.
+
+struct RfcText {
+    labels: Vec<Vec<u8>>,
+    dot: bool,
+    /// every unescaped character is a printing ASCII character (0x21..=0x7E)
+    printable: bool,
+}
+
+/// RFC 1035 section 5.1 reader of a domain name in presentation format.
+fn rfc1035_read(text: &str) -> Result<RfcText, &'static str> {
+    let c: Vec<char> = text.chars().collect();
+    if c.is_empty() {
+        return Err("empty-text");
+    }
+    if c == ['.'] {
+        return Ok(RfcText { labels: vec![], dot: true, printable: true });
+    }
+    let (mut labels, mut cur, mut open, mut dot, mut printable) = (Vec::new(), Vec::new(), false, false, true);
+    let mut i = 0;
+    while i < c.len() {
+        let ch = c[i];
+        if ch == '.' {
+            if !open {
+                return Err("empty-label");
+            }
+            labels.push(std::mem::take(&mut cur));
+            open = false;
+            dot = true;
+            i += 1;
+            continue;
+        }
+        let octet = if ch == '\\' {
+            match c.get(i + 1) {
+                None => return Err("backslash-at-the-end"),
+                Some(d1) if d1.is_ascii_digit() => {
+                    let (Some(d2), Some(d3)) = (c.get(i + 2).and_then(|d| d.to_digit(10)), c.get(i + 3).and_then(|d| d.to_digit(10))) else {
+                        return Err("decimal-escape-without-three-digits");
+                    };
+                    let v = d1.to_digit(10).unwrap() * 100 + d2 * 10 + d3;
+                    if v > 255 {
+                        return Err("decimal-escape-above-255");
+                    }
+                    i += 4;
+                    v as u8
+                }
+                Some(x) if (' '..='~').contains(x) => {
+                    i += 2;
+                    *x as u8
+                }
+                Some(_) => return Err("backslash-before-a-non-printable-character"),
+            }
+        } else {
+            if !('!'..='~').contains(&ch) {
+                printable = false;
+            }
+            if ch as u32 > 0xFF {
+                return Err("character-above-U+00FF");
+            }
+            i += 1;
+            ch as u32 as u8
+        };
+        cur.push(octet);
+        open = true;
+        dot = false;
+    }
+    if open {
+        labels.push(cur);
+    }
+    Ok(RfcText { labels, dot, printable })
+}
+
+/// One record line through the zone-file reader (origin `o.`): owner and NS target as wire octets.
+fn zone_line(line: &str) -> Option<(Vec<u8>, Vec<u8>)> {
+    use domain::rdata::ZoneRecordData;
+    use domain::zonefile::inplace::{Entry, Zonefile};
+    let mut z = Zonefile::from(line.as_bytes());
+    z.set_origin(Name::from_str("o.").unwrap());
+    match z.next_entry() {
+        Ok(Some(Entry::Record(r))) => {
+            let (mut o, mut t) = (Vec::new(), Vec::new());
+            r.owner().compose(&mut o).unwrap();
+            match r.data() {
+                ZoneRecordData::Ns(ns) => ns.nsdname().compose(&mut t).unwrap(),
+                _ => return None,
+            }
+            Some((o, t))
+        }
+        _ => None,
+    }
+}
+
+#[derive(Clone, Copy, PartialEq)]
+enum Form {
+    /// the writer is documented to end the text in a dot
+    MustDot,
+    /// the value is relative: a trailing dot would make it read back as another kind of name
+    Relative,
+    /// absolute value through a writer that may or may not write the final dot
+    Either,
+}
+
+/// What a reader has to return for a text.
+enum Want {
+    /// these octets (and, for UncertainName, this answer of is_absolute)
+    Octets(Vec<u8>, Option<bool>),
+    Reject,
+    /// no demand stated anywhere (the serde reader of RelativeName on a text with a trailing
+    /// dot: FromStr documents an error, the deserializer documents nothing and drops the dot):
+    /// whatever it returns has to be a valid relative name
+    AnyValidRelative,
+}
+
+type Read = Option<(Vec<u8>, Option<bool>)>;
+
+/// Every text-reading route on one text that denotes `labels` (+ trailing dot).
+fn read_back(ctx: &Ctx, stats: &Stats, text: &str, labels: &[Vec<u8>], dot: bool, writers: &[String], case: &dyn Fn() -> Value) {
+    use domain::base::name::OwnedLabel;
+    use domain::base::scan::{IterScanner, Scanner, Symbols};
+    let rel_w = labels_wire(labels, false);
+    let abs_w = labels_wire(labels, true);
+    let zone_w = {
+        let mut w = rel_w.clone();
+        if !dot {
+            w.extend_from_slice(&[1, b'o']);
+        }
+        w.push(0);
+        w
+    };
+    let json_text = serde_json::to_string(text).unwrap();
+    let json_text = json_text.as_str();
+    let abs = || Want::Octets(abs_w.clone(), None);
+    let rel = || if dot { Want::Reject } else { Want::Octets(rel_w.clone(), None) };
+    let unc = || Want::Octets(if dot { abs_w.clone() } else { rel_w.clone() }, Some(dot));
+    let zone = || if zone_w.len() > 255 { Want::Reject } else { Want::Octets(zone_w.clone(), None) };
+    let n = |r: Option<Name<Vec<u8>>>| -> Read { r.map(|n| (n.as_slice().to_vec(), None)) };
+    let r = |r: Option<RelativeName<Vec<u8>>>| -> Read { r.map(|n| (n.as_slice().to_vec(), None)) };
+    let u = |r: Option<UncertainName<Vec<u8>>>| -> Read { r.map(|n| (n.as_slice().to_vec(), Some(n.is_absolute()))) };
+    let l = |r: Option<OwnedLabel>| -> Read { r.map(|n| (n.as_label().as_slice().to_vec(), None)) };
+    let mut routes: Vec<(&'static str, Want, Box<dyn Fn() -> Read + '_>)> = vec![
+        ("Name::from_str", abs(), Box::new(|| n(Name::from_str(text).ok()))),
+        ("Name::from_chars", abs(), Box::new(|| n(Name::from_chars(text.chars()).ok()))),
+        (
+            "Name::from_symbols",
+            abs(),
+            Box::new(|| {
+                let mut s = Symbols::new(text.chars());
+                let res = Name::from_symbols(&mut s).ok();
+                s.ok().ok().and(n(res))
+            }),
+        ),
+        (
+            "NameBuilder::append_chars+into_name",
+            abs(),
+            Box::new(|| {
+                let mut b = NameBuilder::new_vec();
+                b.append_chars(text.chars()).ok()?;
+                n(b.into_name().ok())
+            }),
+        ),
+        (
+            "NameBuilder::append_chars+finish",
+            Want::Octets(rel_w.clone(), None),
+            Box::new(|| {
+                let mut b = NameBuilder::new_vec();
+                b.append_chars(text.chars()).ok()?;
+                r(Some(b.finish()))
+            }),
+        ),
+        (
+            "IterScanner::scan_name",
+            abs(),
+            Box::new(|| {
+                let mut sc = IterScanner::<_, Vec<u8>>::new([text].into_iter());
+                n(sc.scan_name().ok())
+            }),
+        ),
+        ("serde-human-readable->Name", abs(), Box::new(|| n(serde_json::from_str(json_text).ok()))),
+        ("RelativeName::from_str", rel(), Box::new(|| r(RelativeName::from_str(text).ok()))),
+        ("RelativeName::from_chars", rel(), Box::new(|| r(RelativeName::from_chars(text.chars()).ok()))),
+        ("serde-human-readable->RelativeName", if dot { Want::AnyValidRelative } else { rel() }, Box::new(|| r(serde_json::from_str(json_text).ok()))),
+        ("UncertainName::from_str", unc(), Box::new(|| u(UncertainName::from_str(text).ok()))),
+        ("UncertainName::from_chars", unc(), Box::new(|| u(UncertainName::from_chars(text.chars()).ok()))),
+        ("serde-human-readable->UncertainName", unc(), Box::new(|| u(serde_json::from_str(json_text).ok()))),
+        ("zonefile-reader-owner", zone(), Box::new(|| zone_line(&format!("{text} 3600 IN NS x.\n")).map(|(o, _)| (o, None)))),
+        ("zonefile-reader-rdata", zone(), Box::new(|| zone_line(&format!("x. 3600 IN NS {text}\n")).map(|(_, t)| (t, None)))),
+    ];
+    if labels.len() == 1 && !dot {
+        let lab = || Want::Octets(labels[0].clone(), None);
+        routes.push(("OwnedLabel::from_str", lab(), Box::new(|| l(OwnedLabel::from_str(text).ok()))));
+        routes.push(("OwnedLabel::from_chars", lab(), Box::new(|| l(OwnedLabel::from_chars(text.chars()).ok()))));
+        routes.push(("serde-human-readable->OwnedLabel", lab(), Box::new(|| l(serde_json::from_str(json_text).ok()))));
+    }
+    for (reader, want, f) in routes {
+        stats.eval();
+        let sig = format!("C03|octet-axis|read|{reader}");
+        let from = || format!("text {text:?} written by {}", writers.join(", "));
+        match (guard(|| f()), want) {
+            (Err(p), _) => {
+                ctx.violation(&format!("{sig}|panic|{}", panic_class(&p)), &format!("{} : {p}", from()), case());
+            }
+            (Ok(None), Want::Reject) | (Ok(None), Want::AnyValidRelative) => {}
+            (Ok(Some((o, _))), Want::AnyValidRelative) => {
+                stats.count("octet_axis.serde-RelativeName-takes-text-with-trailing-dot");
+                if let Err(why) = validate_name(&o, false) {
+                    ctx.violation(&format!("{sig}|invalid-output|{}", why_class(&why)), &format!("{reader} reads the {} as the invalid relative name {}: {why}", from(), hex(&o)), case());
+                }
+            }
+            (Ok(None), Want::Octets(w, _)) => {
+                ctx.violation(&format!("{sig}|rejects-text-the-library-wrote"), &format!("{reader} rejects the {}; expected octets {}", from(), hex(&w)), case());
+            }
+            (Ok(Some((o, _))), Want::Reject) => {
+                ctx.violation(&format!("{sig}|accepted-should-reject|dot={dot}|result-len={}", total_class(o.len())), &format!("{reader} accepts the {} as {}", from(), hex(&o)), case());
+            }
+            (Ok(Some((o, k))), Want::Octets(w, wk)) => {
+                if o != w {
+                    ctx.violation(&format!("{sig}|reads-other-octets"), &format!("{reader} reads the {} as {}, expected {}", from(), hex(&o), hex(&w)), case());
+                } else if wk.is_some() && k != wk {
+                    ctx.violation(&format!("{sig}|reads-other-kind-of-name|dot={dot}"), &format!("{reader} reads the {} with is_absolute() = {k:?}", from()), case());
+                } else {
+                    stats.distinct(fnv(text.as_bytes()) ^ fnv(reader.as_bytes()));
+                }
+            }
+        }
+    }
+}
+
+/// One name value (non-empty list of labels) held as every name type, written by every
+/// text-producing route, each distinct text read back by every text-reading route.
+fn check_octet_name(ctx: &Ctx, stats: &Stats, labels: &[Vec<u8>]) {
+    use domain::base::iana::Class;
+    use domain::base::name::{OwnedLabel, ParsedName};
+    use domain::base::zonefile_fmt::{DisplayKind, ZonefileFmt};
+    use domain::base::{Record, Ttl};
+    use domain::rdata::Ns;
+    assert!(!labels.is_empty());
+    let rel_w = labels_wire(labels, false);
+    let abs_w = labels_wire(labels, true);
+    let case = || json!({"octet_axis": {"labels": labels.iter().map(|l| hex(l)).collect::<Vec<_>>()}});
+    // the value in every representation
+    let built = guard(|| {
+        let rel = RelativeName::from_octets(rel_w.clone()).ok()?;
+        let abs = Name::from_octets(abs_w.clone()).ok()?;
+        let first = RelativeName::from_octets(labels_wire(&labels[..1], false)).ok()?;
+        let rest_rel = RelativeName::from_octets(labels_wire(&labels[1..], false)).ok()?;
+        let rest_abs = Name::from_octets(labels_wire(&labels[1..], true)).ok()?;
+        Some((rel, abs, first, rest_rel, rest_abs))
+    });
+    let (rel, abs, first, rest_rel, rest_abs) = match built {
+        Ok(Some(x)) => x,
+        Ok(None) => {
+            ctx.violation("C03|octet-axis|construct|from_octets-rejects-valid-name", &format!("from_octets rejects the valid name {}", hex(&abs_w)), case());
+            return;
+        }
+        Err(p) => {
+            ctx.violation(&format!("C03|octet-axis|construct|panic|{}", panic_class(&p)), &p, case());
+            return;
+        }
+    };
+    let root = Name::from_octets(vec![0u8]).unwrap();
+    let other = Name::from_octets(vec![1u8, b'x', 0]).unwrap();
+    let rel_s = RelativeName::from_slice(&rel_w).unwrap();
+    let abs_s = Name::from_slice(&abs_w).unwrap();
+    let unc_rel = UncertainName::relative(rel.clone());
+    let unc_abs = UncertainName::absolute(abs.clone());
+    // message: the flat name at 12, then "first label + pointer into the flat name"
+    let mut msg = vec![0u8; 12];
+    msg.extend_from_slice(&abs_w);
+    let comp_at = msg.len();
+    msg.push(labels[0].len() as u8);
+    msg.extend_from_slice(&labels[0]);
+    let t = 12 + 1 + labels[0].len();
+    msg.extend_from_slice(&[0xC0 | (t >> 8) as u8, t as u8]);
+    let parsed = guard(|| {
+        let mut p = Parser::from_ref(msg.as_slice());
+        p.advance(12).unwrap();
+        let flat = ParsedName::parse(&mut p).ok()?;
+        let mut p = Parser::from_ref(msg.as_slice());
+        p.advance(comp_at).unwrap();
+        let comp = ParsedName::parse(&mut p).ok()?;
+        Some((flat, comp))
+    });
+    let parsed = match parsed {
+        Ok(Some(x)) => Some(x),
+        _ => {
+            ctx.violation("C03|octet-axis|construct|ParsedName::parse-rejects-valid-name", "ParsedName::parse fails on a valid flat / compressed name", case());
+            None
+        }
+    };
+    let chains = guard(|| {
+        let c1 = rel.clone().chain(root.clone()).ok()?;
+        let c2 = first.clone().chain(rest_abs.clone()).ok()?;
+        let c3 = first.clone().chain(rest_rel.clone()).ok()?;
+        let c4 = c3.clone().chain(root.clone()).ok()?;
+        let c5 = unc_rel.clone().chain(root.clone()).ok()?;
+        let c6 = unc_abs.clone().chain(other.clone()).ok()?;
+        Some((c1, c2, c3, c4, c5, c6))
+    });
+    let chains = match chains {
+        Ok(Some(x)) => Some(x),
+        _ => {
+            ctx.violation("C03|octet-axis|construct|chain-refuses-short-names", "chain() of short names fails", case());
+            None
+        }
+    };
+    let owned: Vec<OwnedLabel> = rel.iter().map(OwnedLabel::from_label).collect();
+    const WHOLE: usize = usize::MAX;
+    // (type, writer, form, which label or WHOLE, text)
+    let mut texts: Vec<(&'static str, &'static str, Form, usize, String)> = Vec::new();
+    {
+        let mut w = |ty: &'static str, writer: &'static str, form: Form, which: usize, f: &dyn Fn() -> String| {
+            stats.eval();
+            match guard(|| f()) {
+                Ok(t) => texts.push((ty, writer, form, which, t)),
+                Err(p) => {
+                    ctx.violation(&format!("C03|octet-axis|write|{ty}|{writer}|panic|{}", panic_class(&p)), &p, case());
+                }
+            }
+        };
+        fn ser<T: serde::Serialize + ?Sized>(v: &T) -> String {
+            serde_json::from_str::<String>(&serde_json::to_string(v).expect("serde_json: serialize")).expect("serde_json: a name serializes as a string")
+        }
+        use Form::*;
+        w("Name", "Display", Either, WHOLE, &|| format!("{}", abs));
+        w("Name", "to_string", Either, WHOLE, &|| abs.to_string());
+        w("Name", "fmt_with_dot", MustDot, WHOLE, &|| format!("{}", abs.fmt_with_dot()));
+        w("Name", "ToName::fmt_with_dot", MustDot, WHOLE, &|| format!("{}", ToName::fmt_with_dot(&abs)));
+        w("Name<[u8]>", "Display", Either, WHOLE, &|| format!("{}", abs_s));
+        w("Name<[u8]>", "fmt_with_dot", MustDot, WHOLE, &|| format!("{}", abs_s.fmt_with_dot()));
+        w("Name", "serde-human-readable", Either, WHOLE, &|| ser(&abs));
+        w("Ns<Name>", "Display", MustDot, WHOLE, &|| format!("{}", Ns::new(abs.clone())));
+        w("UncertainName(absolute)", "Display", MustDot, WHOLE, &|| format!("{}", unc_abs));
+        w("UncertainName(absolute)", "serde-human-readable", MustDot, WHOLE, &|| ser(&unc_abs));
+        w("RelativeName", "Display", Relative, WHOLE, &|| format!("{}", rel));
+        w("RelativeName", "to_string", Relative, WHOLE, &|| rel.to_string());
+        w("RelativeName<[u8]>", "Display", Relative, WHOLE, &|| format!("{}", rel_s));
+        w("RelativeName", "serde-human-readable", Relative, WHOLE, &|| ser(&rel));
+        w("UncertainName(relative)", "Display", Relative, WHOLE, &|| format!("{}", unc_rel));
+        w("UncertainName(relative)", "serde-human-readable", Relative, WHOLE, &|| ser(&unc_rel));
+        if let Some((flat, comp)) = &parsed {
+            w("ParsedName(flat)", "Display", Either, WHOLE, &|| format!("{}", flat));
+            w("ParsedName(flat)", "ToName::fmt_with_dot", MustDot, WHOLE, &|| format!("{}", flat.fmt_with_dot()));
+            w("ParsedName(compressed)", "Display", Either, WHOLE, &|| format!("{}", comp));
+            w("ParsedName(compressed)", "ToName::fmt_with_dot", MustDot, WHOLE, &|| format!("{}", comp.fmt_with_dot()));
+        }
+        if let Some((c1, c2, c3, c4, c5, c6)) = &chains {
+            w("Chain<RelativeName,Name>(all+root)", "Display", Either, WHOLE, &|| format!("{}", c1));
+            w("Chain<RelativeName,Name>(all+root)", "fmt_with_dot", MustDot, WHOLE, &|| format!("{}", c1.fmt_with_dot()));
+            w("Chain<RelativeName,Name>(first+rest)", "Display", Either, WHOLE, &|| format!("{}", c2));
+            w("Chain<RelativeName,Name>(first+rest)", "fmt_with_dot", MustDot, WHOLE, &|| format!("{}", c2.fmt_with_dot()));
+            w("Chain<RelativeName,RelativeName>", "Display", Relative, WHOLE, &|| format!("{}", c3));
+            w("Chain<Chain<RelativeName,RelativeName>,Name>", "Display", Either, WHOLE, &|| format!("{}", c4));
+            w("Chain<Chain<RelativeName,RelativeName>,Name>", "fmt_with_dot", MustDot, WHOLE, &|| format!("{}", c4.fmt_with_dot()));
+            w("Chain<UncertainName(relative),Name>", "Display", Either, WHOLE, &|| format!("{}", c5));
+            w("Chain<UncertainName(relative),Name>", "fmt_with_dot", MustDot, WHOLE, &|| format!("{}", c5.fmt_with_dot()));
+            w("Chain<UncertainName(absolute),Name>", "Display", Either, WHOLE, &|| format!("{}", c6));
+            w("Chain<UncertainName(absolute),Name>", "fmt_with_dot", MustDot, WHOLE, &|| format!("{}", c6.fmt_with_dot()));
+        }
+        for (k, lab) in rel.iter().enumerate() {
+            w("Label", "Display", Relative, k, &|| format!("{}", lab));
+            w("OwnedLabel", "Display", Relative, k, &|| format!("{}", owned[k]));
+            w("OwnedLabel", "serde-human-readable", Relative, k, &|| ser(&owned[k]));
+        }
+    }
+    // (w): what the text denotes by the RFC rules; collect the distinct texts
+    let mut distinct: BTreeMap<(String, usize, bool), Vec<String>> = BTreeMap::new();
+    for (ty, writer, form, which, text) in &texts {
+        let want: &[Vec<u8>] = if *which == WHOLE { labels } else { &labels[*which..*which + 1] };
+        let sig = format!("C03|octet-axis|write|{ty}|{writer}");
+        let what = |why: &str| format!("{ty} {writer} writes {} as {text:?}: {why}", hex(&labels_wire(want, false)));
+        match rfc1035_read(text) {
+            Err(why) => {
+                ctx.violation(&format!("{sig}|text-is-not-presentation-format|{why}"), &what(why), case());
+            }
+            Ok(t) => {
+                if t.labels != want {
+                    ctx.violation(&format!("{sig}|text-denotes-other-octets"), &what(&format!("by RFC 1035 5.1 that is {}", hex(&labels_wire(&t.labels, false)))), case());
+                    continue;
+                }
+                if !t.printable {
+                    ctx.violation(&format!("{sig}|unescaped-character-outside-printable-ascii"), &what("an octet outside 0x21..=0x7E must be written as a \\DDD or \\X escape"), case());
+                }
+                if *form == Form::MustDot && !t.dot {
+                    ctx.violation(&format!("{sig}|no-trailing-dot"), &what("the text of this writer has to end in a dot"), case());
+                    continue;
+                }
+                if *form == Form::Relative && t.dot {
+                    ctx.violation(&format!("{sig}|trailing-dot-on-relative-value"), &what("the text of a relative value ends in a dot"), case());
+                    continue;
+                }
+                distinct.entry((text.clone(), *which, t.dot)).or_default().push(format!("{ty} {writer}"));
+            }
+        }
+    }
+    // (r): every reader on every distinct text
+    for ((text, which, dot), writers) in &distinct {
+        let want: &[Vec<u8>] = if *which == WHOLE { labels } else { &labels[*which..*which + 1] };
+        read_back(ctx, stats, text, want, *dot, writers, &case);
+    }
+    // whole record lines in zone-file style, read by the zone-file reader
+    let rec = Record::new(abs.clone(), Class::IN, Ttl::from_secs(3600), Ns::new(abs.clone()));
+    let lines: [(&'static str, &dyn Fn() -> String); 4] = [
+        ("Record::display_zonefile(Simple)", &|| format!("{}\n", rec.display_zonefile(DisplayKind::Simple))),
+        ("Record::display_zonefile(Tabbed)", &|| format!("{}\n", rec.display_zonefile(DisplayKind::Tabbed))),
+        ("Record::display_zonefile(Multiline)", &|| format!("{}\n", rec.display_zonefile(DisplayKind::Multiline))),
+        ("Record::Display", &|| format!("{}\n", rec)),
+    ];
+    for (writer, f) in lines {
+        stats.eval();
+        let sig = format!("C03|octet-axis|record-line|{writer}");
+        match guard(|| {
+            let line = f();
+            let back = zone_line(&line);
+            (line, back)
+        }) {
+            Err(p) => {
+                ctx.violation(&format!("{sig}|panic|{}", panic_class(&p)), &p, case());
+            }
+            Ok((line, None)) => {
+                ctx.violation(&format!("{sig}|zonefile-reader-rejects-the-line"), &format!("the zone-file reader does not read the NS record line {line:?} written for owner = target = {}", hex(&abs_w)), case());
+            }
+            Ok((line, Some((o, t)))) => {
+                if o != abs_w || t != abs_w {
+                    ctx.violation(
+                        &format!("{sig}|zonefile-reader-reads-other-octets|{}", if o != abs_w { "owner" } else { "rdata" }),
+                        &format!("the line {line:?} written for owner = target = {} reads back as owner {} target {}", hex(&abs_w), hex(&o), hex(&t)),
+                        case(),
+                    );
+                }
+            }
+        }
+    }
+}
+
+/// The name values of the octet axis.
+fn octet_axis_names(quick: bool) -> Vec<Vec<Vec<u8>>> {
+    let mut names: std::collections::BTreeSet<Vec<Vec<u8>>> = Default::default();
+    let other = b"b".to_vec();
+    let mut place = |p: Vec<u8>, all: bool| {
+        names.insert(vec![p.clone()]);
+        names.insert(vec![p.clone(), other.clone()]);
+        if all {
+            names.insert(vec![other.clone(), p.clone()]);
+        }
+    };
+    // characters with a meaning of their own next to the octet: label separator, escape
+    // character, token separator, digit (a decimal escape followed by a digit)
+    let special = [b'.', b'\\', b' ', b'1'];
+    for v in 0..=255u8 {
+        place(vec![v], true);
+        place(vec![v, b'a', b'a'], true);
+        place(vec![b'a', v, b'a'], true);
+        place(vec![b'a', b'a', v], true);
+        for s in special {
+            place(vec![v, s], true);
+            place(vec![s, v], true);
+            place(vec![s, v, s], true);
+        }
+    }
+    // every ordered pair of octets around the class boundaries as a two-octet label
+    let menu: Vec<u8> = if quick {
+        vec![
+            0x00, 0x01, 0x09, 0x0A, 0x0D, 0x1F, 0x20, 0x21, 0x22, 0x23, 0x24, 0x28, 0x29, 0x2A, 0x2D, 0x2E, 0x2F, 0x30, 0x39, 0x3A, 0x3B, 0x40, 0x41, 0x5A, 0x5B, 0x5C, 0x5D, 0x5F, 0x60, 0x61, 0x7A,
+            0x7B, 0x7E, 0x7F, 0x80, 0x81, 0xC0, 0xE9, 0xFE, 0xFF,
+        ]
+    } else {
+        (0..=255).collect()
+    };
+    for a in &menu {
+        for b in &menu {
+            place(vec![*a, *b], false);
+        }
+    }
+    // a long name filled with the octet: 63+63+63+50 (texts of up to ~1000 characters)
+    let mut names: Vec<Vec<Vec<u8>>> = names.into_iter().collect();
+    for v in 0..=255u8 {
+        names.push(vec![vec![v; 63], vec![v; 63], vec![v; 63], vec![v; 50]]);
+    }
+    names
+}
+
 fn main() {
     let ctx = Ctx::new("C03", "model_checking");
     let stats = Stats::new();
@@ -1532,7 +2036,10 @@ fn main() {
         let v: Value = serde_json::from_str(&std::fs::read_to_string(path).expect("replay file")).expect("json");
         let case = &v["case"];
         println!("replaying {}", v["signature"]);
-        if let Some(t) = case["text"].as_str() {
+        if let Some(l) = case["octet_axis"]["labels"].as_array() {
+            let labels: Vec<Vec<u8>> = l.iter().map(|x| unhex(x.as_str().unwrap())).collect();
+            check_octet_name(&ctx, &stats, &labels);
+        } else if let Some(t) = case["text"].as_str() {
             check_text(&ctx, &stats, &t.chars().collect::<Vec<_>>());
         } else if let Some(o) = case["octets"].as_str().filter(|_| case.get("family").is_some()) {
             check_wire(&ctx, &stats, &unhex(o), "replay");
@@ -1683,6 +2190,22 @@ fn main() {
     samples.push(json!({"slicing_shapes": shapes.len(), "example_shape": [1, 63, 2], "ops": "slice/range/slice_from/range_from/split/truncate at every index pair 0..=len+1; is_label_start; parent; strip_suffix; iter_suffixes; into_relative/into_absolute"}));
     check_chain(&ctx, &stats);
 
+    // Part 2e: the octet axis of the text round trip
+    let before = stats.evals();
+    let axis = octet_axis_names(ctx.quick());
+    axis.par_iter().for_each(|labels| check_octet_name(&ctx, &stats, labels));
+    stats.count_n("octet_axis.names", axis.len() as u64);
+    stats.count_n("octet_axis.writer_and_reader_runs", stats.evals() - before);
+    samples.push(json!({
+        "octet_axis": "every octet value 0..=255 alone / first / middle / last in a label and next to '.', '\\', ' ', a digit (before, after, between), in the only / first / last label; every ordered pair from the class-boundary menu (thorough: all 65536 pairs) as a two-octet label; a 240-octet name filled with each octet",
+        "names": axis.len(),
+        "held_as": "Name, Name<[u8]>, RelativeName, RelativeName<[u8]>, UncertainName (relative, absolute), ParsedName (flat, compressed), six kinds of Chain, Label, OwnedLabel, Ns<Name>, Record",
+        "writers": "Display, to_string, fmt_with_dot, ToName::fmt_with_dot, serde human-readable (serde_json), Record Display / display_zonefile (Simple, Tabbed, Multiline)",
+        "readers": "Name::{from_str, from_chars, from_symbols}, NameBuilder::append_chars + into_name / finish, IterScanner::scan_name, RelativeName::{from_str, from_chars}, UncertainName::{from_str, from_chars}, OwnedLabel::{from_str, from_chars}, serde human-readable of all four, zone-file reader (owner and RDATA position, origin o.)",
+        "oracle": "the text denotes the value's octets under the RFC 1035 5.1 escape rules written in the harness; every reader returns the octets the text was written from",
+        "example": {"labels": ["7f31"], "text": "\\1271"},
+    }));
+
     let evals = stats.evals();
     let cov = json!({
         "states": states,
@@ -1690,7 +2213,7 @@ fn main() {
         "traces_validated_against_impl": transitions,
         "evaluations": evals + transitions,
         "distinct_nontrivial": stats.distinct_count(),
-        "rule": "part 1: BFS to FIXPOINT over abstract builder states (len, open-label length); every operation of the menu executed on the real NameBuilder in every reachable state, twice with different fill octets. part 2: every string over the text alphabet to max_len, boundary families, every wire string from the length menu to depth, raw octet strings, every index pair for slicing. distinct_nontrivial = distinct octet strings that some constructor accepted as a name (hash set)",
+        "rule": "part 1: BFS to FIXPOINT over abstract builder states (len, open-label length); every operation of the menu executed on the real NameBuilder in every reachable state, twice with different fill octets. part 2: every string over the text alphabet to max_len, boundary families, every wire string from the length menu to depth, raw octet strings, every index pair for slicing. part 2e (octet axis): every octet value at every kind of place of a label, every boundary-menu pair, as every name type, through every text writer, each distinct text through every text reader; expected octets from the RFC 1035 5.1 escape rules in the harness and the round-trip identity. distinct_nontrivial = distinct octet strings that some constructor accepted as a name (hash set)",
         "exhaustive": true,
         "samples": samples,
         "counters": stats.counters_json(),
